@@ -5,6 +5,11 @@ class Engine:
     name = None
     prop = None
     level = None
+    deadline = None     # monotonic time after which long enumerations are cut short
+
+    def out_of_time(self):
+        import time
+        return self.deadline is not None and time.monotonic() > self.deadline
 
     def worker_init(self, tier):
         pass
